@@ -1,6 +1,6 @@
 (* C10 -- the engine's self-imposed time budget always fits the clock. Statements only. *)
-From Coq Require Import ZArith List.
-From JV Require Import Model.Go Proofs.GoProofs.
+From Coq Require Import ZArith List String.
+From JV Require Import Model.Go Model.Uci Proofs.GoProofs Proofs.GoTokens.
 Import ListNotations.
 Local Open Scope Z_scope.
 
@@ -28,6 +28,37 @@ Theorem C10_no_overflow : forall t i m, 1 <= t < 2^61 -> 0 <= i < 2^61 -> 1 <= m
   i64 (Z.quot t m) /\ i64 (Z.quot t m + i) /\ i64 (Z.quot t m + i - 100) /\ i64 (i - 500) /\ i64 (t - 1).
 Proof. exact budget_no_overflow. Qed.
 
+
+(* TOKEN LEVEL: the argument loop of the main-loop model works on the words of the `go` line (Model/Uci.v: go_tokens -- str::parse on every value, the
+   other colour's clock arguments skipped unparsed, early returns, panics).  Whenever it ends with arguments to search with, they are the result of
+   the pair-level loop above on a list of (keyword, value) pairs whose values are i64 readings of words of the line ... *)
+Theorem C10_token_loop_refines_the_argument_loop : forall fuel white a toks msgs a' msgs',
+  go_tokens white a toks msgs fuel = GoArgs a' msgs' ->
+  exists args, go_loop white a args = Some a' /\ Forall (from_tokens toks) args.
+Proof. exact go_tokens_refines_go_loop. Qed.
+
+(* ... so the budget the main loop hands to search() for ANY `go` line -- any words, any order, any repetition -- is go_budget of those arguments and,
+   when the values are inside the property's domain, fits the clock / is exactly movetime / is unbounded only without clock and movetime *)
+Theorem C10_budget_of_every_go_line : forall fuel white toks a msgs',
+  go_tokens white go_init toks [] fuel = GoArgs a msgs' ->
+  exists args, go_loop white go_init args = Some a /\ Forall (from_tokens toks) args /\
+    (Forall arg_ok args ->
+       (g_movetime a <> -1 -> go_budget a = g_movetime a) /\
+       (g_movetime a = -1 -> g_time a <> -1 -> 0 <= go_budget a < g_time a) /\
+       (go_budget a = -1 <-> g_movetime a = -1 /\ g_time a = -1)).
+Proof.
+  intros fuel white toks a msgs' H. destruct (go_tokens_refines_go_loop _ _ _ _ _ _ _ H) as (args & L & F).
+  exists args. split; [exact L|]. split; [exact F|]. intros OK.
+  assert (P : parse_go white args = Some (g_depth a, go_budget a)) by (unfold parse_go; rewrite L; reflexivity).
+  destruct (parse_go_budget _ _ _ _ OK P) as (a0 & L0 & _ & K). rewrite L in L0. injection L0 as <-. exact K.
+Qed.
+
+(* non-vacuity: a line with both clocks, increments and a skipped foreign clock, through the token loop *)
+Example C10_token_example :
+  exists a msgs, go_tokens true go_init ["wtime"; "60000"; "btime"; "x"; "winc"; "1000"; "movestogo"; "20"]%string [] 20 = GoArgs a msgs /\
+                 go_budget a = 3900.
+Proof. eexists. eexists. split; [vm_compute; reflexivity|vm_compute; reflexivity]. Qed.
+
 (* the repaired finding, for the record: each clause failed before the fix *)
 Theorem C10_pre_fix_refuted :
   (exists t i m, 1 <= t /\ 0 <= i /\ 1 <= m /\ budget_pre_fix t i m (-1) < 0) /\
@@ -37,3 +68,5 @@ Proof. exact (conj pre_fix_negative (conj pre_fix_sentinel pre_fix_exceeds)). Qe
 
 Print Assumptions C10_budget_fits.
 Print Assumptions C10_parse_go.
+Print Assumptions C10_token_loop_refines_the_argument_loop.
+Print Assumptions C10_budget_of_every_go_line.
